@@ -12,6 +12,16 @@ BASE_NOTE = (
 
 # property -> (category, text, technique, design_ref, extra note)
 CLAIMS = {
+    "C15": (
+        "proof",
+        "RenderContext.copy(block_scope=False) is verified with a frame/alias obligation on the symbolic heap: the new context has fresh empty locals, its scope is [its locals, chain(namespace, caller globals), builtin, its counters], "
+        "and nothing reachable from it aliases the caller's locals, counters, tag namespace, loop stack or any open block namespace; the caller's context is untouched. Node.render raises DisabledTagError iff the node's tag is disabled. "
+        "Call-site obligations (structural) on RenderNode and CallNode, sync and async: the partial/macro is rendered with that copy (never the caller's context), render disables include and renders with block_scope=True, and neither writes the caller's context. "
+        "A bounded check renders 5 caller binders x 4 wrappers x 5 partial bodies through render / render with argument / call.",
+        "contract-based deductive verification (heap alias/frame obligation) + structural call-site obligations + bounded contract check",
+        "DESIGN.md section 4 C15",
+        "",
+    ),
     "C20": (
         "proof",
         "Span.line_col and LiquidError._error_context are verified total and correct for every position inside the source (loop invariant: cumulative length == total length of the lines seen so far, over the assumed splitlines partition): "
